@@ -274,5 +274,5 @@ def cases(draw):
 
 
 CLAUSES = [
-    Clause('legacy-vs-native', check_case, kind='random', strategy=cases, budget={'quick': 2000, 'thorough': 24000}),
+    Clause('legacy-vs-native', check_case, kind='random', strategy=cases, budget={'quick': 6000, 'thorough': 50000}),
 ]
